@@ -728,6 +728,11 @@ func vf6RunLoop(t *testing.T, inCfg config.RedisConfig, ln *vf6Listener, backend
 			res.viol = append(res.viol, vf6Viol{"loop-does-not-stop-on-break", "Run() did not return within 45 s although the attempt ended with an error that wraps ErrBreak (" + script + ")", rp})
 			ri.Stop()
 		}
+		if script == "k" && returned && cacheS != "cleared" {
+			// the reader reported a damaged segment; the loop is left (ErrCorrupted wraps ErrBreak): the cache the
+			// next process opens must not hold those bytes any more
+			res.viol = append(res.viol, vf6Viol{"corrupted-cache-kept", fmt.Sprintf("the attempt ended with ErrCorrupted and Run() returned, yet the cache still holds %s: the next start serves the damaged bytes again", state()), rp})
+		}
 		res.count = append(res.count, "runloop_"+script+"_"+backend)
 		return res
 	}
@@ -1418,7 +1423,7 @@ func TestVerifC06Att(t *testing.T) {
 				h.cutSweep(cd, inCfg, outCfg, ln, bridge, r, true)
 			}
 		}
-		for i := 0; i < vfutil.Scale(3, 40); i++ {
+		for i := 0; i < vfutil.Scale(1, 4); i++ { // superseded by the enumeration of session C06d (pt 3); kept as a kind
 			h.gcRace(r)
 		}
 		// every kind in every run; one schedule with the REAL Send (truth read from the target double's data)
@@ -1431,7 +1436,7 @@ func TestVerifC06Att(t *testing.T) {
 			h.cutSweep(vf6GenCut(r, p[0], p[1]), inCfg, outCfg, ln, bridge, r, vfutil.Thorough())
 		}
 	}
-	n := vfutil.Scale(240, 2500)
+	n := vfutil.Scale(240, 1800)
 	for i := 0; i < n; i++ {
 		if len(s.Viol) >= 30 {
 			s.Count("stopped_after_30_violations")
